@@ -1,13 +1,16 @@
-(* C11 (token level, partial) — the criterion "same token sequence up to white space, blank lines and
-   surrounding blanks in token texts" is an equivalence with a verified checker; the formatter's
-   built-in self check is modelled and shown to decide exactly that criterion.
-   The formatter's own handlers are NOT modelled: each run certifies the outputs it produced
-   (translation validation with the verified criterion over the model tokenizer of C10). *)
+(* C11 -- token level: the criterion "same token sequence up to white space, blank lines and surrounding
+   blanks in token texts" is an equivalence with a verified checker; the formatter's built-in self check
+   is modelled and shown to decide exactly that criterion.
+   Handler level (second half of this file): an executable model of format_emb.py on the regenerated
+   handler table -- token preservation for all trees, NEVER FAILS (format_total), idempotence and
+   re-tokenization results (partial; what is missing is stated at each theorem). *)
 From Coq Require Import NArith List Bool Arith.
 Import ListNotations.
 Require Import EmbossV.Lex.Regex EmbossV.Lex.Tokenizer EmbossV.Lex.Spec EmbossV.Lex.Format.
 Require Import EmbossV.Lex.Proofs_Line EmbossV.Lex.Proofs_Examples EmbossV.Lex.Proofs_Format.
 Require Import EmbossV.Lex.FmtModel EmbossV.Lex.FmtProofs.
+Require Import EmbossV.Lex.FmtTyping EmbossV.Lex.FmtProofsTotal.
+Require Import EmbossV.Lex.FmtShow EmbossV.Lex.FmtProofsIdem EmbossV.Lex.FmtRetok EmbossV.Lex.FmtProofsRetok.
 
 Theorem fmt_equivb_spec : forall T o f, fmt_equivb T o f = true <-> fmt_equiv T o f.
 Proof. exact fmt_equivb_spec_proof. Qed.
@@ -102,18 +105,111 @@ Proof.
            eq_trans (format_toks ws iw tbl H1 t v Hf) (tree_toks_leaves ws tbl H2 t Hw Hr)).
 Qed.
 
-(* never fails, PARTIAL: proved for the string fragment of the handler language (the handlers of all
-   expression, type-reference, name, attribute-value ... productions: str_handler; 181 of the 224
-   productions of the current table).  Missing for the full statement: a typing of the row/block
-   handlers (values of type list-of-rows / list-of-blocks / field-location pair, rows with at most
-   one column at render time, at most two header kinds per _columnize call, non-empty `if` bodies)
-   and the exclusion of `doc-line -> doc Comment eol` trees, on which format_emb.py itself asserts. *)
+(* ------------------------------------------------------------------------------------------------
+   NEVER FAILS (Lex/FmtTyping.v).  [table_typed_ok tbl] is a decidable static check, evaluated by
+   vm_compute on the regenerated table (FmtHInstance_C11.inst_table_typed_ok): the type of every grammar
+   symbol is inferred by iteration ([infer]) and every handler, applied to arguments of the types of
+   its right-hand side, has a type below the type of its left-hand side.  The types are refinements:
+   str / list of exactly k str (field-location: 2, what arg[0], arg[1] need) / rows with AT MOST ONE
+   COLUMN (the assert of _render_row_to_text) / blocks whose header-row names lie in a set of at most
+   two names (the `assert len(row_types) < 3` of _columnize) and which are known to be NON-EMPTY where
+   _conditional_field asserts it / lists of lists of rows / _InlineBitsBodyType.
+   Asserts of the Python code, one by one:
+     - _render_row_to_text `len(row.columns) < 2`            typing fact (TRows: every row narrow)
+     - _columnize `len(row_types) < 3`                        typing fact (TBlocks _ ks with |ks| < 3)
+     - _conditional_field `assert indented_body`              typing fact (TBlocks true _)
+     - _indent_row `isinstance(row, _Row)`, arg[0]/arg[1], .header_lines, str + str, "".join  typing facts
+     - _Block.__new__ `assert header`                         a _Row (3-field namedtuple) is always truthy
+     - _doc_line `assert not comment`                         NOT a typing fact: the grammar has
+         doc-line -> doc Comment? eol.  It is the tree hypothesis [asserts_ok]: at every node whose handler
+         contains `assert not arg_i`, child i is the EMPTY alternative of its symbol (a node without
+         children whose handler returns "").  The real front end guarantees it by a TOKENIZER fact: the
+         Documentation patterns `-- .*` / `--$` extend to the end of the line, so no Comment token can
+         follow a Documentation token on its line, and the parser then has to reduce Comment? -> (empty).
+         (checked by the harness on every parse tree of every run: tree_gwfb && asserts_ok evaluated by
+         the extracted model; and on the token lists of the real tokenizer)
+   [tree_gwf] = FmtModel.tree_wf (every node names a production whose right-hand side its children
+   derive) + every leaf carries a terminal symbol.
+   ------------------------------------------------------------------------------------------------ *)
+
+(* one handler: if the arguments have the types of the right-hand side and the asserted conditions hold,
+   evaluation cannot fail and the result has the inferred type (one lemma per DSL construct/combinator) *)
+Theorem eval_total_typed : forall ws iw args ts, have_tys args ts = true ->
+  forall e t, ety ts e = Some t -> Forall (fun c => ceval args c = Some true) (asserted e) ->
+  exists v, eval ws iw args e = Some v /\ has_ty v t = true.
+Proof. exact ety_sound. Qed.
+
+(* the formatter NEVER FAILS on a tree of the grammar (no size bound, every indent width) *)
+Theorem format_total : forall ws iw tbl, table_typed_ok tbl = true ->
+  forall t, tree_gwf tbl t -> asserts_ok tbl t = true -> exists v, format ws iw tbl t = Some v.
+Proof. exact format_total_proof. Qed.
+
+(* ... and returns a string (the formatted text) when the root symbol has type str (`module` has) *)
+Theorem format_text_total : forall ws iw tbl, table_typed_ok tbl = true ->
+  forall t s, tree_gwf tbl t -> asserts_ok tbl t = true ->
+  root_sym tbl t = Some s -> sym_ty tbl (infer tbl) s = Some TStr ->
+  exists txt, format_text ws iw tbl t = Some txt.
+Proof. exact format_text_total_proof. Qed.
+
+(* the same with any symbol typing that passes the check, and with the type of the result *)
+Theorem format_total_typed : forall ws iw tbl sg, sig_ok tbl sg = true ->
+  forall t, tree_gwf tbl t -> asserts_ok tbl t = true ->
+  exists v, format ws iw tbl t = Some v /\
+            forall s, root_sym tbl t = Some s -> exists ty, sym_ty tbl sg s = Some ty /\ has_ty v ty = true.
+Proof. exact format_total_sig_proof. Qed.
+
+(* the boolean the harness evaluates on real parse trees implies the well-formedness hypothesis *)
+Theorem tree_gwfb_sound : forall tbl t, tree_gwfb tbl t = true -> tree_gwf tbl t.
+Proof. exact tree_gwfb_sound_proof. Qed.
+
+(* the earlier partial result (string fragment only), kept: it needs no hypothesis on the tree shape *)
 Theorem format_total_strings_partial : forall ws iw tbl t,
   str_tree tbl t = true -> exists g, format ws iw tbl t = Some (VStr g).
 Proof. exact format_total_strings. Qed.
 
-(* idempotence, PARTIAL: the three whole-file normalisation passes and rstrip are idempotent; missing:
-   parse (render rows) gives back the same rows, and _columnize of already aligned rows *)
+(* ------------------------------------------------------------------------------------------------
+   IDEMPOTENCE, PARTIAL.  Proved on the model: _columnize pads each cell to a width computed from the
+   cells of its column, so cells that already have these widths are left alone (columnize_idempotent,
+   columnize_cells_idempotent) and the alignment depends on the cells only through their texts
+   (columnize_widths_depend_on_text_only); the two whole-file passes of _module compose to an idempotent
+   function, so the rows that are rendered are a fixed point of them (format_rows_fixed_point_partial);
+   each pass and rstrip alone are idempotent.  NOT proved, still validated per output by the harness
+   (fmt (fmt t) = fmt t observed on every case): that tokenizing and parsing the rendered rows gives back
+   rows with the same cell texts -- this needs the parser (C08/C09) and the Indent/Dedent part of the
+   tokenizer; for single lines see format_line_retokenizes_partial below.
+   ------------------------------------------------------------------------------------------------ *)
+
+(* _columnize of a block whose header cells are already at least as wide as the widths computed for their
+   columns changes nothing: the aligned line is just the concatenation of the cells (no padding added) *)
+Theorem columnize_idempotent : forall ws iw ic all b,
+  cells_padded iw ic all (bheader b) 0 (rcols (bheader b)) ->
+  columnize_block ws iw ic all b =
+  bprefix b ++ [mkRow (rname (bheader b)) [grstrip ws (concat (rcols (bheader b)))] (rindent (bheader b))] ++ bbody b.
+Proof. exact columnize_block_padded. Qed.
+
+(* the padding step itself is idempotent: padded cells satisfy the hypothesis above and padding them again is the identity *)
+Theorem columnize_cells_idempotent : forall iw ic all r cols i,
+  cells_padded iw ic all r i (pad_cells iw ic all r i cols) /\
+  pad_cells iw ic all r i (pad_cells iw ic all r i cols) = pad_cells iw ic all r i cols /\
+  pad_cols iw ic all r i cols = concat (pad_cells iw ic all r i cols).
+Proof. exact (fun iw ic all r cols i => conj (pad_cells_padded iw ic all r cols i) (conj (pad_cells_idem iw ic all r cols i) (pad_cols_cells iw ic all r cols i))). Qed.
+
+(* the widths depend on the header rows only through (name, texts of the cells, indent) *)
+Theorem columnize_widths_depend_on_text_only : forall iw ic name i bs bs',
+  map (fun b => row_flat (bheader b)) bs = map (fun b => row_flat (bheader b)) bs' ->
+  col_width iw ic name i bs = col_width iw ic name i bs'.
+Proof. exact col_width_flat. Qed.
+
+(* the rows _module renders are final_passes rows0; they are a fixed point of both whole-file passes *)
+Theorem format_rows_fixed_point_partial : forall rows,
+  indent_blanks_and_comments (final_passes rows) = final_passes rows /\
+  add_blank_rows_on_dedent (final_passes rows) = final_passes rows /\
+  final_passes (final_passes rows) = final_passes rows.
+Proof.
+  exact (fun rows => conj (indent_blanks_after_dedent rows)
+                          (conj (add_blank_rows_idem (indent_blanks_and_comments rows)) (final_passes_idem rows))).
+Qed.
+
 Theorem indent_blanks_idempotent_partial : forall l,
   indent_blanks_and_comments (indent_blanks_and_comments l) = indent_blanks_and_comments l.
 Proof. exact indent_blanks_idem. Qed.
@@ -125,9 +221,43 @@ Proof. exact add_blank_rows_idem. Qed.
 Theorem rstrip_idempotent_partial : forall ws g, grstrip ws (grstrip ws g) = grstrip ws g.
 Proof. exact grstrip_idem. Qed.
 
+(* ------------------------------------------------------------------------------------------------
+   RE-TOKENIZATION, PARTIAL (single lines; Lex/FmtRetok.v).  [pieces_fit T g] is the decidable local
+   condition "at the start of every piece of the line, the tokenizer's longest-first choice is exactly
+   that piece" (token pieces with their own symbol, the formatter's blanks skipped as white space).
+   Under it the line loop of the C10 tokenizer model splits the rendered line back into exactly the tokens
+   its pieces stand for, whose (symbol, stripped text) sequence is the one format_preserves_tokens speaks
+   about.  Missing for the full statement: pieces_fit is evaluated per produced line (by the harness on a
+   sample, by the extracted model), not derived from the spacing discipline of the handler table for all
+   outputs; and Indent / Dedent / newline tokens (tok_lines) are not covered.
+   ------------------------------------------------------------------------------------------------ *)
+Theorem format_line_retokenizes_partial : forall T ln g, pieces_fit T (gnorm g) = true ->
+  tokenize_line T ln (flat g) = LOk (piece_tokens ln 0 (gnorm g)) /\
+  tokens_toks (is_ws T) (piece_tokens ln 0 (gnorm g)) = gtoks (is_ws T) g.
+Proof. exact format_line_retokenizes_proof. Qed.
+
+(* all lines of a formatted text: each line tokenizes into its pieces, and the tokens of all lines together are
+   exactly the tokens of the tree (ties format_preserves_tokens to the tokenizer model) *)
+Theorem format_lines_retokenize_partial : forall T iw tbl, table_toks_ok tbl = true ->
+  forall t g, format (is_ws T) iw tbl t = Some (VStr g) -> text_fits T g = true ->
+  (forall l, In l (glines g) -> forall ln, tokenize_line T ln (flat l) = LOk (piece_tokens ln 0 (gnorm l))) /\
+  flat_map (fun l => tokens_toks (is_ws T) (piece_tokens 0 0 (gnorm l))) (glines g) = tree_toks (is_ws T) tbl t.
+Proof. exact format_lines_retokenize_proof. Qed.
+
+(* Config(show_line_types=True) (Lex/FmtShow.v): the `name|` prefixes carry no token *)
+Theorem show_line_types_preserves_tokens : forall ws iw w rows t, render_rows_show ws iw w rows = Some t ->
+  exists u, render_rows ws iw rows = Some u /\ gtoks ws t = gtoks ws u.
+Proof. exact render_rows_show_toks. Qed.
+
 Example toy_fmt_example :
   table_toks_ok toy_fmt_table = true /\ droppable_terminal toy_fmt_table = true /\
   tree_wf toy_fmt_table toy_tree /\
   format_text toy_ws 2 toy_fmt_table toy_tree = Some [120; 32; 32; 121]%N /\
   leaf_toks toy_ws toy_tree = [([88], [120]); ([89], [121])]%N.
 Proof. exact toy_fmt_example_proof. Qed.
+
+(* the hypotheses of format_total are satisfiable by the same instance *)
+Example toy_fmt_total_example :
+  table_typed_ok toy_fmt_table = true /\ tree_gwf toy_fmt_table toy_tree /\ asserts_ok toy_fmt_table toy_tree = true /\
+  sym_ty toy_fmt_table (infer toy_fmt_table) [97]%N = Some TStr.
+Proof. exact toy_fmt_total_example_proof. Qed.
